@@ -53,6 +53,22 @@ def make_V(opts):
         n = Int(1)
         d = Data(n)
     return K
+
+
+def _make_E(opts, end):
+    # ONE class statement for two declarations that differ only in the byte order (a class factory with a parameter)
+    class K(Packet):
+        __bisturi__ = opts
+        a = Int(2, signed=0, endianness=end)
+    return K
+
+
+def make_E(opts):
+    return _make_E(opts, 'big')
+
+
+def make_E2(opts):
+    return _make_E(opts, 'little')
 '''
 
 OPTS = {
@@ -71,27 +87,35 @@ def _u8(b):
     return b
 
 
+def base(decl):
+    """'A@uonly' names declaration A defined with the option set 'uonly' whatever the option set of the run is"""
+    return decl.split('@')[0]
+
+
 def expected(decl):
     """the reference behaviour of each declaration on the battery (hand-written, 5 lines per declaration)"""
+    decl = base(decl)
     out = []
     for raw in INPUTS:
         if decl == 'A':
             out.append(('ok', (raw[0],)) if len(raw) >= 1 else ('err',))
         elif decl == 'A2':
             out.append(('ok', (raw[0] - 256 if raw[0] >= 128 else raw[0],)) if len(raw) >= 1 else ('err',))
-        elif decl == 'B':
+        elif decl in ('B', 'E'):
             out.append(('ok', (raw[0] * 256 + raw[1],)) if len(raw) >= 2 else ('err',))
+        elif decl == 'E2':
+            out.append(('ok', (raw[0] + raw[1] * 256,)) if len(raw) >= 2 else ('err',))
         elif decl == 'C':
             out.append(('ok', (raw[0], raw[1:2])) if len(raw) >= 2 else ('err',))
         elif decl == 'V':
             out.append(('ok', (raw[0], raw[1:1 + raw[0]])) if len(raw) >= 1 and len(raw) >= 1 + raw[0] else ('err',))
     packs = {'A': (b'\x00', b'\x05'), 'A2': (b'\x00', b'\x05'), 'B': (b'\x00\x00', b'\x00\x05'), 'C': (b'\x00\x00', b'\x05\x00'),
-             'V': (b'\x00', b'\x05')}[decl]
-    neg = {'A': ('err',), 'A2': ('ok', b'\xff'), 'B': ('err',), 'C': ('err',), 'V': ('err',)}[decl]
+             'V': (b'\x00', b'\x05'), 'E': (b'\x00\x00', b'\x00\x05'), 'E2': (b'\x00\x00', b'\x05\x00')}[decl]
+    neg = {'A': ('err',), 'A2': ('ok', b'\xff'), 'B': ('err',), 'C': ('err',), 'V': ('err',), 'E': ('err',), 'E2': ('err',)}[decl]
     return (tuple(out), ('ok', packs[0]), ('ok', packs[1]), neg)
 
 
-FIELDS = {'A': ('a',), 'A2': ('a',), 'B': ('a',), 'C': ('a', 'b'), 'V': ('n', 'd')}
+FIELDS = {'A': ('a',), 'A2': ('a',), 'B': ('a',), 'C': ('a', 'b'), 'V': ('n', 'd'), 'E': ('a',), 'E2': ('a',)}
 
 
 def battery(K, decl):
@@ -100,7 +124,7 @@ def battery(K, decl):
     for raw in INPUTS:
         try:
             p = K.unpack(raw)
-            out.append(('ok', tuple(getattr(p, f) for f in FIELDS[decl])))
+            out.append(('ok', tuple(getattr(p, f) for f in FIELDS[base(decl)])))
         except PacketError:
             out.append(('err',))
         except Exception as e:
@@ -113,7 +137,7 @@ def battery(K, decl):
             return ('err',)
         except Exception as e:
             return ('exc', type(e).__name__, str(e)[:80])
-    first = FIELDS[decl][0]
+    first = FIELDS[base(decl)][0]
     return (tuple(out), pk(), pk(**{first: 5}), pk(**{first: -1}))
 
 
@@ -144,7 +168,7 @@ _CODE = {}
 def define(mod, decl, opt):
     """one class definition + battery; returns ('defined', battery) or ('failed', exception class, text)"""
     try:
-        K = getattr(mod, 'make_' + decl)(dict(OPTS[opt]))
+        K = getattr(mod, 'make_' + base(decl))(dict(OPTS[decl.split('@')[1] if '@' in decl else opt]))
     except fsx.Crash:
         raise
     except BaseException as e:
